@@ -84,10 +84,18 @@ Definition all_defects_opts : flags := Flags true true true true true true true 
 
 (** * Messages *)
 
-Record upd := Upd {
+Record upd := UpdD {
   u_path : option gpath;      (* nil *Path allowed on the wire *)
-  u_val  : tv                 (* [TVnil]: no TypedValue *)
+  u_val  : tv;                (* [TVnil]: no TypedValue *)
+  u_dep  : option (N * string)
+      (* the deprecated Update.value (Encoding, bytes), next to or instead of [u_val].  The
+         ingest path never reads it: the metadata guards, value.Equal for the event-driven
+         suppression and the stored leaf's kind all look at [Val] only; it only takes part
+         in proto.Equal (same-timestamp staleness). *)
 }.
+
+(** an update in the current encoding only *)
+Definition Upd (p : option gpath) (v : tv) : upd := UpdD p v None.
 
 Record notif := Notif {
   n_ts     : Z;
@@ -175,8 +183,15 @@ Fixpoint tv_peqb (a b : tv) {struct a} : bool :=
   | _, _ => tv_eqb a b
   end.
 
+Definition dep_eqb (a b : option (N * string)) : bool :=
+  match a, b with
+  | Some (e, x), Some (e', y) => N.eqb e e' && String.eqb x y
+  | None, None => true
+  | _, _ => false
+  end.
+
 Definition upd_eqb (a b : upd) : bool :=
-  ogpath_eqb (u_path a) (u_path b) && tv_peqb (u_val a) (u_val b).
+  ogpath_eqb (u_path a) (u_path b) && tv_peqb (u_val a) (u_val b) && dep_eqb (u_dep a) (u_dep b).
 
 Definition notif_eqb (a b : notif) : bool :=
   Z.eqb (n_ts a) (n_ts b) &&
